@@ -21,6 +21,7 @@ REFACTOR_PROPS = {
     "hoist_digits_validateRFC4226": ["C03", "C04"], "invert_branch_padBytes": ["C05", "C12"], "change_error_text": ["C03", "C13"],
     "add_unrelated_init_closure": ["C01", "C02", "C11"],
     "recovery_early_return": ["C19", "C18"],
+    "chain_local_accumulator": ["C19", "C18"],
 }
 
 
